@@ -319,6 +319,31 @@ impl<T> Timed<T> {
 pub const W0: Duration = Duration::from_millis(300);
 const POLL: Duration = Duration::from_millis(5);
 
+/// A pause that works on every runtime: the future is pending until the deadline, a helper thread wakes the task.
+pub struct PauseFor {
+    until: Instant,
+}
+
+pub fn pause_for(ms: u64) -> PauseFor {
+    PauseFor { until: Instant::now() + Duration::from_millis(ms) }
+}
+
+impl Future for PauseFor {
+    type Output = ();
+    fn poll(self: Pin<&mut Self>, cx: &mut Context<'_>) -> Poll<()> {
+        let now = Instant::now();
+        if now >= self.until {
+            return Poll::Ready(());
+        }
+        let (w, left) = (cx.waker().clone(), self.until - now);
+        std::thread::spawn(move || {
+            std::thread::sleep(left);
+            w.wake();
+        });
+        Poll::Pending
+    }
+}
+
 pub fn wait_until(cond: impl Fn() -> bool, max: Duration) -> bool {
     let start = Instant::now();
     loop {
